@@ -92,7 +92,12 @@ def judgeC02 (o : Obs) : Verdict :=
       if p.1.1.tag == "abegin" && arg p.1.1 0 == 0 && ratArg (arg p.1.1 1) (arg p.1.1 2) > 0 && p.2.1.tag == "awaited" then
         some (p.1.2, p.2.2, p.2.1.time) else none))
   fail (waits.any (fun a => waits.any (fun b => a.1 < b.1 && a.2.2 == b.2.2 && a.2.1 > b.2.1)))
-    "two delays ending at the same time resumed in the opposite order of their start"
+    "two delays ending at the same time resumed in the opposite order of their start" ++
+  -- the levels of a resource supply iterate in the order of their names - not in the order of some earlier spelling that a
+  -- cache happens to remember
+  o.events.flatMap (fun e =>
+    fail (e.tag == "lvorder" && e.args != (List.range e.args.length).map (fun (i : Nat) => (i : Int)))
+      s!"the levels of a supply declared at {e.time} iterate in the order {e.args} of its (sorted) names")
 
 /-! ### C03 - the kernel never fails on its own -/
 
@@ -201,10 +206,18 @@ def judgeC05 (o : Obs) : Verdict :=
             let got := decodeCodes rest.length rest
             fail (priv.isSome) s!"scope {arg e 0}#{inst}: a privileged child failure {priv.map (·.1)} was wrapped in Concurrent" ++
             fail (got != regular.map (·.1)) s!"scope {arg e 0}#{inst}: Concurrent carries {got}, direct children failed with {regular.map (·.1)}" ++
+            fail ((got.filter (fun g => g.headD 9 == 0)).eraseDups.length != (got.filter (fun g => g.headD 9 == 0)).length)
+              s!"scope {arg e 0}#{inst}: Concurrent carries the same exception object more than once: {got}" ++
             fail (got.any (fun g => suppressedCode (g.headD 0) || internalCode (g.headD 0))) s!"Concurrent contains a cancellation/closure/signal: {got}" ++
             (match regular.head? with
              | some f => fail (e.time != f.2) s!"scope {arg e 0}#{inst}: first child failure at {f.2}, block ended at {e.time}"
              | none => [])
+          | 0 :: rest =>
+            -- a (non-privileged) exception object that was raised in a child leaves the block only inside a Concurrent -
+            -- also when the body was just awaiting that child (exception objects carry the number of their `raise`)
+            fail (!privilegedCode c.args && regular.any (fun f => f.1 == c.args))
+              s!"scope {arg e 0}#{inst}: the failure {c.args} of a child left the block unwrapped (not as Concurrent)" ++
+            (let _ := rest; [])
           | _ => []
         else []
       | none => []
@@ -407,7 +420,18 @@ def judgeC10 (o : Obs) : Verdict :=
           else []
         | none => []
       else [])
+    -- receivers are served in the order in which they asked: of two requests that both got an item, the earlier got its
+    -- item first (a request is `getreq`; it is served by the next `got` of its activity, unless it is aborted first)
+    let served : List (Nat × Nat × Int) := (idx o).filterMap (fun p =>
+      if p.1.tag == "getreq" && arg p.1 0 == q then
+        match (ofLabel o p.1.label).find? (fun x => x.2 > p.2) with
+        | some (n, ni) => if n.tag == "got" && n.args.length == 1 && accepted.contains (arg n 0) then some (p.2, ni, p.1.label) else none
+        | none => none
+      else none)
+    let overtaken := served.flatMap (fun a => served.filterMap (fun b =>
+      if a.1 < b.1 && a.2.1 > b.2.1 then some (a.2.2, b.2.2) else none))
     early ++
+    fail (!overtaken.isEmpty) s!"queue {q}: a receiver that asked later was served before one that asked earlier (earlier, later): {overtaken.take 3}" ++
     fail dup s!"queue {q}: an item was received twice: {received}" ++
     fail order s!"queue {q}: items received {received} are not a prefix of the items put {accepted}" ++
     fail (o.crash == [] && (received.length : Int) + remaining != accepted.length)
@@ -627,8 +651,19 @@ def flowActs (o : Obs) (i : Nat) (n : Nat) (base : Int) : List FlowAct :=
 
 def ratMax (a b : Rat) : Rat := if a < b then b else a
 
+/-- the tasks started (transitively) by the activities `roots`: `spawn` events name the new task and carry the label of
+the activity that started it -/
+def flowDescendants (o : Obs) (roots : List Int) : List Int :=
+  let step (ls : List Int) : List Int :=
+    (ls ++ o.events.filterMap (fun e => if e.tag == "spawn" && ls.contains e.label then some (arg e 1) else none)).eraseDups
+  ((List.range 6).foldl (fun ls _ => step ls) roots).filter (fun l => !roots.contains l)
+
 /-- common clauses once the call has ended at event index `E`: nothing of the activities runs afterwards -/
-def flowAborted (what : String) (acts : List FlowAct) (E : Nat) (tE : Rat) : Verdict :=
+def flowAborted (what : String) (acts : List FlowAct) (E : Nat) (tE : Rat) (o : Obs := default) : Verdict :=
+  -- ... nor anything of the tasks the activities started themselves
+  (flowDescendants o (acts.map (·.label))).flatMap (fun l =>
+    fail ((idx o).any (fun q => q.2 > E && q.1.label == l && q.1.tag != "tfin"))
+      s!"{what}: task {l}, started by one of the activities, still runs code after the call ended at {tE}") ++
   acts.flatMap (fun x =>
     fail (x.started && x.last > E) s!"{what}: activity {x.label} still runs code after the call ended at {tE}" ++
     fail (x.started && (match x.fin with | some f => f.1 > E | none => true))
@@ -650,7 +685,7 @@ def judgeC16 (o : Obs) : Verdict :=
         let firstFail := failed.foldl (fun (m : Option (Nat × Rat × Int)) f => match m with
           | some g => if f.1 < g.1 then some f else some g
           | none => some f) none
-        flowAborted what acts E e.time ++
+        flowAborted what acts E e.time o ++
         (if e.tag == "collected" then
           let slowest := acts.foldl (fun m x => match x.fin with | some f => ratMax m f.2.1 | none => m) b.time
           fail (acts.any (fun x => match x.fin with | some f => f.2.2 != 0 | none => true))
@@ -681,7 +716,7 @@ def judgeC16 (o : Obs) : Verdict :=
           let expected := (done.take gots.length).map (·.value)
           let failed := (acts.filterMap (fun x => x.fin.bind (fun f => if f.2.2 == 3 && f.1 < E then some f else none)))
           let wanted : Nat := if brk ≥ 0 then min brk.toNat cnt else cnt
-          flowAborted what acts E e.time ++
+          flowAborted what acts E e.time o ++
           fail (cnt > n) s!"{what}: count exceeds the number of activities but the iteration started" ++
           fail (gots.map (fun g => arg g.1 0) != expected)
             s!"{what}: yielded {gots.map (fun g => arg g.1 0)}, the results in order of completion are {done.map (·.value)}" ++
@@ -937,7 +972,13 @@ def judgeC18 (o : Obs) : Verdict :=
           | none => []
         else []
     else [])
-  waits ++ intr ++ once ++ untilC
+  -- no API call of a valid program raises an error of the library's own making (code 99 = an exception class the
+  -- programs never raise and the statement never mentions, e.g. a RuntimeError out of `interrupt()`)
+  let internal := o.events.flatMap (fun e =>
+    fail (e.tag == "pyend" && arg e 0 == 1 && arg e 1 == 99) s!"process {e.label - 5000} died of an unexpected internal error at {e.time}" ++
+    fail (e.tag == "recv" && arg e 1 == 1 && arg e 2 == 99) s!"process {e.label - 5000} received an unexpected internal error at {e.time}") ++
+    fail (o.crash.headD 0 == 99 || (o.crash.headD 0 == 3 && (o.crash.drop 1).contains 99)) s!"the run ended with an unexpected internal error {o.crash}"
+  waits ++ intr ++ once ++ untilC ++ internal
 
 /-! ### C13 - pipes: the fluid model replayed over the implementation's trace -/
 
